@@ -35,6 +35,14 @@ def scorers(n, p):
         ("LocalAnomalyScore(L2)", lambda: LocalAnomalyScore(L2Cost()), 4, 1, lambda X, c: oracles.local_anomaly_score(oracles.l2_cost, X, *c)),
         ("LocalAnomalyScore(GVar)", lambda: LocalAnomalyScore(GaussianVarCost()), 4, 2,
          lambda X, c: oracles.local_anomaly_score(oracles.gaussian_var_cost, X, *c)),
+        # fixed parameters (scalars are broadcast to every column: the minimum size still depends on the data, p + 1 for the full covariance)
+        ("GaussianVarCost(0.5,2.0)", lambda: GaussianVarCost(param=(0.5, 2.0)), 2, 2, lambda X, c: oracles.gaussian_var_cost(X[c[0]:c[1]], (0.5, 2.0))),
+        ("GaussianCovCost(0.0,1.0)", lambda: GaussianCovCost(param=(0.0, 1.0)), 2, p + 1, lambda X, c: oracles.gaussian_cov_cost(X[c[0]:c[1]], (0.0, 1.0))),
+        ("GaussianCovCost(0.5,2.0)", lambda: GaussianCovCost(param=(0.5, 2.0)), 2, p + 1, lambda X, c: oracles.gaussian_cov_cost(X[c[0]:c[1]], (0.5, 2.0))),
+        ("ChangeScore(GCov)", lambda: ChangeScore(GaussianCovCost()), 3, p + 1, lambda X, c: oracles.change_score(oracles.gaussian_cov_cost, X, *c)),
+        ("ChangeScore(GCov(0.0,1.0))", lambda: ChangeScore(GaussianCovCost(param=(0.0, 1.0))), 3, p + 1, None),
+        ("Saving(GCov(0.0,1.0))", lambda: Saving(GaussianCovCost(param=(0.0, 1.0))), 2, p + 1, None),
+        ("LocalAnomalyScore(GCov(0.0,1.0))", lambda: LocalAnomalyScore(GaussianCovCost(param=(0.0, 1.0))), 4, p + 1, None),
     ]
     return out
 
@@ -61,6 +69,10 @@ def check_one(rec, name, sc, X, n, k, min_size, oracle, cuts_rows):
         got, err = None, "RuntimeError"
     except Exception as e:
         got, err = None, type(e).__name__
+    if want_ok and oracle is None:          # only acceptance is judged for this scorer (its values are C06's business)
+        if err is not None and err != "RuntimeError":
+            rec.violation(f"{name}:rejects-valid:{err}", f"{name}.evaluate({cuts_rows}) on n={n} raised {err} for valid cuts", "C13.accepts", inp)
+        return True
     if want_ok:
         exp = [oracle(X, tuple(r)) for r in cuts_rows]
         if any(e is None for e in exp):
@@ -87,12 +99,15 @@ def run(tier="quick", seed=0, repo="/repo"):
     rec = Recorder(target="skchange/base/base_interval_scorer.py::BaseIntervalScorer.evaluate")
     rng = np.random.default_rng(seed)
     ns = [4, 5] if tier == "quick" else [4, 5, 6]
-    p = 1
-    for n in ns:
+    shapes = [(n, 1) for n in ns] + ([(5, 2)] if tier == "quick" else [(5, 2), (6, 2), (6, 3)])
+    for n, p in shapes:
         X = np.round(rng.normal(size=(n, p)) * 3, 1) + np.arange(n).reshape(-1, 1) % 2
         for name, make, k, min_size, oracle in scorers(n, p):
             if k == 4 and n > (5 if tier == "quick" else 6):
                 continue
+            if p > 1 and "GCov" not in name and "GaussianCovCost" not in name and name not in ("L2Cost", "GaussianVarCost", "CUSUM"):
+                continue                                   # wider data: the scorers whose minimum size depends on p + one of each kind
+            name = name if p == 1 else f"{name}[p={p}]"
             sc = make().fit(X)
             box = range(-2, n + 3)
             for c in itertools.product(box, repeat=k):
@@ -120,7 +135,7 @@ def run(tier="quick", seed=0, repo="/repo"):
                     rec.violation(f"{name}:malformed:{label}:{type(e).__name__}", f"{name}.evaluate raised {type(e).__name__} for a {label} cuts array",
                                   "C13.rejects", {"scorer": name, "X": X, "cuts": arr, "kind": label})
                 rec.case((name, n, label), True)
-    return rec.result(RULE, f"n in {ns}, p=1, box [-2,n+2]^k, k in 2..4", exhaustive=True)
+    return rec.result(RULE, f"(n, p) in {shapes}, box [-2,n+2]^k, k in 2..4", exhaustive=True)
 
 
 def replay(inp, repo="/repo"):
@@ -128,7 +143,7 @@ def replay(inp, repo="/repo"):
     X = np.array(inp["X"], dtype=float)
     n, p = X.shape
     for name, make, k, min_size, oracle in scorers(n, p):
-        if name == inp["scorer"]:
+        if name == inp["scorer"].split("[p=")[0]:
             rec = Recorder()
             sc = make().fit(X)
             cuts = np.array(inp["cuts"])
